@@ -71,9 +71,9 @@ def oracle_proc(case: Any, r: Any) -> Optional[str]:
 class Check(PropertyCheck):
     id = 'C01'
     props_module = 'Props.C01'
-    models = {'proc': 'XProc.v'}
+    models = {'proc': 'XProc.v', 'proc_ir': 'XProcIR.v'}
     needs_gen = True
-    gen_modules = ['gen_skeleton']
+    gen_modules = ['gen_skeleton', 'gen_c01_code']
     rule = ('(A) import graphs: every project of <= N flat modules x <= K imports each (targets: any module incl. itself, or an '
             'unknown name) x parse flag per module, plus random projects with packages, cycles and all processing orders '
             'sampled; non-trivial = at least one import edge AND (a cycle or an unparsable module); '
@@ -81,6 +81,10 @@ class Check(PropertyCheck):
             'files through `python -m pydoctor` in a subprocess')
     trusted_base = [
         'Coq 8.16.1 kernel; vm_compute used for skeletons_checked and the Example; no native_compute; no axioms',
+        'translator harness/gen/gen_c01_code.py (fail-closed; bodies of System.processModule / getProcessedModule / process -> '
+        'Gen/ProcCode.v in the statement language of Model/ProcIR.v, whose interpreter is the stated meaning of the Python '
+        'statements it covers; primitives: parseString/parseFile, processModuleAST = the listed getProcessedModule calls, '
+        '_introspectThing/msg/progress/postProcess without effect on the modelled state)',
         'translator harness/gen/gen_skeleton.py (fail-closed; prints the try/except skeleton and the live exception class table)',
         'oracle contract `allowed_table` in Gen/Skeleton.v: what each designated risky call may raise (stated, not proved)',
         'extraction ExtrOcamlBasic only + coq/ocaml/driver.ml',
@@ -91,7 +95,10 @@ class Check(PropertyCheck):
     ]
     assumptions = ['see trusted_base: oracle contract of risky calls; non-risky statements of barrier functions do not raise']
     manifest = {
-        'text': ('Theorems: the module work-list machine (System.process/processModule/getProcessedModule, re-entrant through '
+        'text': ('Tie to the source: the bodies of System.processModule/getProcessedModule/process are translated from the current '
+                 'model.py on every run and C01_code_process_module_is_model / C01_code_process_is_model prove that interpreting them '
+                 'is the machine below (C01_code_process_total restates the result on the translated code). '
+                 'Theorems: the module work-list machine (System.process/processModule/getProcessedModule, re-entrant through '
                  'imports) terminates for every project and order without tripping an assert, drains the list, and each module '
                  'ends PROCESSED iff it parsed, reported exactly once otherwise (C01_process_total); an unparsable file does not '
                  'affect other modules (C01_bad_file_isolated); exit status is 0/2/3 by the documented rule (C01_exit_status); a '
@@ -161,6 +168,14 @@ class Check(PropertyCheck):
         cases = self.graph_cases()
         impl = lib.run_impl_worker('c01_proc.py', cases, jobs=16)
         mod = self.model('proc', [to_model(c) for c in cases])
+        # third leg: the interpretation of the code TRANSLATED from model.py (Gen/ProcCode.v)
+        mod_ir = self.model('proc_ir', [to_model(c) for c in cases])
+        for c, r, mi in zip(cases, impl, mod_ir):
+            mm = canon_model(c, dec(mi))
+            if r != mm and len([v for v in out if v.kind == 'correspondence']) < 5:
+                out.append(Violation('correspondence', 'the code translated from model.py (Gen/ProcCode.v, interpreted by Model.ProcIR) '
+                                     'and System.process disagree: the translator or the statement language misrepresents the source',
+                                     case={'proc': c}, expected=mm, observed=r))
         nt = 0
         for c, r, m in zip(cases, impl, mod):
             mm = canon_model(c, dec(m))
